@@ -271,6 +271,26 @@ def install(eng):
 
     @model("builtins.sum")
     def _sum(eng, it, start=0):
+        if type(it).__name__ == "SymList" and isinstance(start, list) and not start:
+            # sum(list of lists, []): the concatenation of a ragged list of symbolic length.  Segment s starts at off(s), where off is a ghost
+            # supplied by the contract (eng.ghost_offsets) and checked here: off(0) = 0, off(s+1) - off(s) = len(item s) at the generic segment
+            from . import lazyseq as LZ
+            hints = getattr(eng, "ghost_offsets", None)
+            if not hints:
+                raise Unsupported("concatenation of a list of lists of symbolic length without ghost offsets")
+            off = hints.pop(0)
+            n = T.zi(it.length)
+            eng.oblige("ghost/offsets-start-at-zero", off(0) == 0, kind="inv-init")
+            cat = z3.Function(f"concat!{T.fresh('c', 'int')}", z3.IntSort(), z3.RealSort())
+            for (s_, t_) in getattr(eng, "generic_segments", []):
+                s_, t_ = T.zi(s_), T.zi(t_)
+                seg = it.item(s_)
+                if type(seg).__name__ != "LazySeq":
+                    raise Unsupported("concatenation of a symbolic list whose items are not lists")
+                ln = T.zi(seg.length)
+                eng.oblige("ghost/offsets-advance-by-the-length-of-each-item", z3.Implies(z3.And(s_ >= 0, s_ < n), off(s_ + 1) - off(s_) == ln), kind="inv-step")
+                eng.add_axiom(z3.Implies(z3.And(s_ >= 0, s_ < n, t_ >= 0, t_ < ln), cat(off(s_) + t_) == T.zr(seg.item(t_))))
+            return LZ.LazySeq(off(n), lambda j: cat(T.zi(j)))
         vals = M.iterate(eng, it)
         r = start
         for v in vals:
